@@ -33,6 +33,8 @@ CLIENTS = {
     "cA": {},
     "cB": {"add_claims": {"always": {"id_token": ["name"], "userinfo": ["nickname", "given_name"]}, "by_scope": {"id_token": True}}},
     "cC": {"allowed_scopes": ["openid", "email"]},
+    # explicit opt-OUT of scope-derived claims where the release point's default is on (a False that must not read as "unset")
+    "cD": {"add_claims": {"always": {"userinfo": ["nickname"]}, "by_scope": {"userinfo": False, "id_token": False}}},
 }
 _srv = None
 
